@@ -192,8 +192,13 @@ def compare_cfg(name, feats, base, got, m):
     return None
 
 
+_LAST_CFGS = []
+
+
 def gen_cases(rng, tier):
     cfgs = QUICK if tier == "quick" else THOROUGH
+    del _LAST_CFGS[:]
+    _LAST_CFGS.extend(n for n, _ in cfgs)
     lines, meta = battery()
     proto = [c + " " + (a.hex() if a else "-") for c, a in lines]
     results = {}
@@ -252,7 +257,7 @@ def nontrivial(case, line):
 
 
 def extra_coverage(cases, impl, model):
-    return {"configurations": [n for n, _ in QUICK], "battery_lines": len(cases)}
+    return {"configurations": list(_LAST_CFGS) or [n for n, _ in QUICK], "battery_lines": len(cases)}
 
 
 def search(rng, ctx):
